@@ -446,8 +446,10 @@ func (l *Lexer) advance() {
 	}
 }
 
+// skipSpaces skips the blanks and tabs between the tokens of a line: hledger accepts a
+// tab wherever it accepts two or more spaces (e.g. between an account and its amount).
 func (l *Lexer) skipSpaces() {
-	for l.pos < len(l.input) && l.input[l.pos] == ' ' {
+	for l.pos < len(l.input) && (l.input[l.pos] == ' ' || l.input[l.pos] == '\t') {
 		l.advance()
 	}
 }
